@@ -342,28 +342,24 @@ def r4_parse_before_write(ctx, res):
 
 
 def r5_pooled_connection(ctx, res):
-    cf = ctx.repo.func('_db', 'connect')
+    from ..speccheck import view
+    cv = view(ctx, '_db', 'connect')
+    cf = cv.f
     key = 'connect-returns-pooled'
-    res.inst(key, cf.module.loc(cf.node), 'connect() returns pool[dbpath] on every path')
-    rets = [n for n in walk_no_nested(cf.node) if isinstance(n, ast.Return)]
+    res.inst(key, cv.loc(), 'connect() returns pool[dbpath] on every path')
+    rets = [r for r in cv.rows if r[0] == 'return']
     if not rets:
-        res.find(key, cf.module.loc(cf.node), 'connect() has no return')
+        res.find(key, cv.loc(), 'connect() has no return')
     for r in rets:
-        v = r.value
-        if not (isinstance(v, ast.Subscript) and isinstance(v.value, ast.Name) and v.value.id == 'pool'):
-            res.find(key, cf.module.loc(r), f'connect() returns `{norm(v) if v is not None else None}` instead of the pooled '
-                                            f'connection: callers may get a private connection outside the transaction')
-    stores = [n for n in walk_no_nested(cf.node) if isinstance(n, ast.Assign)
-              and any(isinstance(t, ast.Subscript) and isinstance(t.value, ast.Name) and t.value.id == 'pool' for t in n.targets)]
+        if r[1] != 'pool[wn.config.database_path]':
+            res.find(key, cv.loc(r[4]), f'connect() returns `{r[1][:80]}` instead of the pooled connection: callers may get a private '
+                                        f'connection outside the transaction')
     key = 'connect-store-guarded'
-    res.inst(key, cf.module.loc(cf.node), 'pool store only when the path has no pooled connection')
-    for s in stores:
-        guarded = False
-        for p in parents(s):
-            if isinstance(p, ast.If) and 'not in pool' in norm(p.test):
-                guarded = True
-        if not guarded:
-            res.find(key, cf.module.loc(s), 'connect() replaces a pooled connection (store not guarded by `not in pool`)')
+    res.inst(key, cv.loc(), 'pool store only when the path has no pooled connection')
+    stores = [r for r in cv.rows if r[0] == 'store' and r[1].startswith('pool[')]
+    for r in stores:
+        if 'wn.config.database_path not in pool' not in r[2] or not r[1].startswith('pool[wn.config.database_path] = '):
+            res.find(key, cv.loc(r[4]), f'connect() replaces a pooled connection (store `{r[1][:50]}` not guarded by `not in pool`: {sorted(r[2])})')
     if not stores:
         res.find(key, cf.module.loc(cf.node), 'connect() never stores the new connection in the pool')
     # nobody else writes the pool
@@ -387,7 +383,7 @@ def r5_pooled_connection(ctx, res):
 RULES = [
     ('C06-R1', r1_one_transaction, 25),
     ('C06-R2', r2_failures_propagate, 1),
-    ('C06-R3', r3_remove, 4),
+    ('C06-R3', r3_remove, 2),
     ('C06-R4', r4_parse_before_write, 5),
     ('C06-R5', r5_pooled_connection, 2),
 ]
